@@ -777,9 +777,14 @@ def rule_sort_sites(ctx):
     for b in fx.body_list:
         if "::tests::" in b["def_path"] or not b["def_path"].startswith(NT):
             continue
+        # the caller's own integer-variable set is a parameter of type &IndexSet<String>: the last argument of p2f must be that parameter
+        own = fx.bodies.get(b["def_path"].split("::{")[0], [b])[0]
+        iv_params = {p_.get("name") for p_ in own.get("params", []) if p_.get("p") == "Bind" and "IndexSet<std::string::String>" in str(p_.get("ty", ""))}
         for c in hq.calls(b["body"], NT + "p2f"):
             args = c["args"]
-            pc.setdefault(b["def_path"][len(NT):].split("::{")[0], set()).add(hq.render(args[-1]))
+            from ..facts import local_of as _lo
+            nm = _lo(args[-1])
+            pc.setdefault(b["def_path"][len(NT):].split("::{")[0], set()).add("int_vars" if (nm in iv_params and nm is not None) else hq.render(args[-1]))
     ctx.add("SORT-SITES", "p2f:int_vars-passed", bool(pc) and all(v == {"int_vars"} for v in pc.values()) and set(pc) == {"natural_comparison", "natural_b_atom", "natural_head_atom", "natural_head_interval"},
             "src/translating/formula_representation/natural.rs", "every p2f call hands on the caller's int_vars: %s" % {k_: sorted(v) for k_, v in pc.items()})
 
